@@ -133,6 +133,11 @@ def build_case(data):
     return {'kind': 'value', 'c': jsonable(mc), 'variants': variants, 'ambiguous': amb}
 
 
+def fuzz_one(data):
+    case = build_case(bytes(data).ljust(160, b'\0')[:160])
+    return check_value(from_json(case['c']), case['variants'], case['ambiguous']), case
+
+
 def _hyp(ctx, n_examples):
     def factory():
         @seed(runner.hseed(ctx, 5))
@@ -186,6 +191,9 @@ def _shard(ctx, shard, nshards, max_slashes):
         ctx.notes['shipped_string_occurrences'] = len(strings)
         ctx.notes['shipped_distinct_table_string_pairs'] = len(seen)
     _hyp(ctx, ctx.scale(2500, 20000))
+    if shard == 1 and not ctx.quick:
+        from vlib import fuzz
+        fuzz.campaign(ctx, 'c05', 150000)
 
 
 def run(ctx):
